@@ -191,6 +191,11 @@ func targets() []*target {
 			params: []string{"(m_stringToLevel : list (bytes * Z))", "(level : Z)", "(text : bytes)", "(tr_ : list lvl_event)"},
 			result: "option unit * Z * list lvl_event", final: "(None, level, tr_)"},
 
+		{pkg: slogPkg, recv: "Level", fn: "MarshalText", coq: "marshal_text", file: "LevelNames", strict: true, fallback: "LevelRef.marshal_text_ref",
+			comment: "(returns (text, err): the name in levelToString, an error for a level without one)", tymap: map[string]string{"error": "option unit", "[]byte": "bytes"},
+			calls:  map[string]callSpec{"fmt.Errorf": {pure: "Some tt", lazy: true}}, nils: map[string]string{"bytes": "(@nil byte)"},
+			params: []string{"(m_levelToString : list (Z * bytes))", "(level : Z)"}, result: "bytes * option unit", final: "((@nil byte), None)"},
+
 		// ---- attribute assembly (C07) ----
 		// a *Entry is seen as the chain of own attribute lists from it up to the root (nil = the empty
 		// chain): e.attrs / e.owner are the head / the tail.  *kvps is threaded through as the binder
